@@ -297,6 +297,83 @@ theorem C17_group_entrywise (r : Regs) (fuel : Nat) (l : List Yaml) (n : String)
   obtain ⟨_, rfl⟩ := hc
   exact mapM_except_spec _ l subs hm
 
+/-- the same for the chained transition functions (the order written is the order applied) and for the
+tests of a `reduce_any` -/
+theorem C17_chain_keeps_every_entry (r : Regs) (fuel : Nat) (l : List Yaml) (c : Comp)
+    (hsig : r.transition.find? (fun s => s.name == "chain") = some ⟨"chain", ["transition_functions"], []⟩)
+    (h : buildComp r (fuel + 1) .transition (.map [("name", .str "chain"), ("transition_functions", .list l)]) = .ok c) :
+    ∃ subs, l.mapM (buildComp r fuel .transition) = .ok subs ∧
+      (match c with | .mk n _ ss => n = "chain" ∧ ss = subs) := by
+  have hrest : ([("name", Yaml.str "chain"), ("transition_functions", Yaml.list l)] : List (String × Yaml)).filter
+      (fun kv => kv.1 != "name") = [("transition_functions", .list l)] := by
+    simp +decide [List.filter]
+  have hname : ([("name", Yaml.str "chain"), ("transition_functions", Yaml.list l)] : List (String × Yaml)).lookup "name"
+      = some (.str "chain") := by simp [List.lookup]
+  unfold buildComp at h
+  simp only [hname, hrest] at h
+  have l1 : ([("transition_functions", Yaml.list l)] : List (String × Yaml)).lookup "reward_functions" = none := by simp +decide [List.lookup]
+  have l2 : ([("transition_functions", Yaml.list l)] : List (String × Yaml)).lookup "transition_functions" = some (.list l) := by simp [List.lookup]
+  have l3 : ([("transition_functions", Yaml.list l)] : List (String × Yaml)).lookup "terminating_functions" = none := by simp +decide [List.lookup]
+  have l4 : ([("transition_functions", Yaml.list l)] : List (String × Yaml)).lookup "reward_function" = none := by simp +decide [List.lookup]
+  have l5 : ([("transition_functions", Yaml.list l)] : List (String × Yaml)).lookup "distance_function" = none := by simp +decide [List.lookup]
+  have l6 : ([("transition_functions", Yaml.list l)] : List (String × Yaml)).lookup "visibility_function" = none := by simp +decide [List.lookup]
+  have l7 : ([("transition_functions", Yaml.list l)] : List (String × Yaml)).lookup "area" = none := by simp +decide [List.lookup]
+  have l8 : ([("transition_functions", Yaml.list l)] : List (String × Yaml)).lookup "object_type" = none := by simp +decide [List.lookup]
+  have l9 : ([("transition_functions", Yaml.list l)] : List (String × Yaml)).lookup "colors" = none := by simp +decide [List.lookup]
+  simp only [l1, l2, l3, l4, l5, l6, l7, l8, l9] at h
+  cases hm : List.mapM (buildComp r fuel RegKind.transition) l with
+  | error e => rw [hm] at h; cases h
+  | ok s2 =>
+    rw [hm] at h
+    refine ⟨s2, rfl, ?_⟩
+    have hc : isCustom "chain" = false := by decide
+    have hfc : factoryCheck (r.of RegKind.transition) "chain" ["transition_functions"] =
+        .ok (⟨"chain", ["transition_functions"], []⟩, ["transition_functions"]) := by
+      simp +decide [factoryCheck, Regs.of, hsig]
+    simp only [Bool.not_true, Bool.false_eq_true, if_false, hc, List.map, hfc] at h
+    simp +decide at h
+    subst h
+    simp
+
+theorem C17_reduce_any_keeps_every_entry (r : Regs) (fuel : Nat) (l : List Yaml) (c : Comp)
+    (hsig : r.terminating.find? (fun s => s.name == "reduce_any") = some ⟨"reduce_any", ["terminating_functions"], []⟩)
+    (h : buildComp r (fuel + 1) .terminating (.map [("name", .str "reduce_any"), ("terminating_functions", .list l)]) = .ok c) :
+    ∃ subs, l.mapM (buildComp r fuel .terminating) = .ok subs ∧
+      (match c with | .mk n _ ss => n = "reduce_any" ∧ ss = subs) := by
+  have hrest : ([("name", Yaml.str "reduce_any"), ("terminating_functions", Yaml.list l)] : List (String × Yaml)).filter
+      (fun kv => kv.1 != "name") = [("terminating_functions", .list l)] := by
+    simp +decide [List.filter]
+  have hname : ([("name", Yaml.str "reduce_any"), ("terminating_functions", Yaml.list l)] : List (String × Yaml)).lookup "name"
+      = some (.str "reduce_any") := by simp [List.lookup]
+  unfold buildComp at h
+  simp only [hname, hrest] at h
+  have l1 : ([("terminating_functions", Yaml.list l)] : List (String × Yaml)).lookup "transition_functions" = none := by simp +decide [List.lookup]
+  have l2 : ([("terminating_functions", Yaml.list l)] : List (String × Yaml)).lookup "terminating_functions" = some (.list l) := by simp [List.lookup]
+  have l3 : ([("terminating_functions", Yaml.list l)] : List (String × Yaml)).lookup "reward_functions" = none := by simp +decide [List.lookup]
+  have l4 : ([("terminating_functions", Yaml.list l)] : List (String × Yaml)).lookup "reward_function" = none := by simp +decide [List.lookup]
+  have l5 : ([("terminating_functions", Yaml.list l)] : List (String × Yaml)).lookup "distance_function" = none := by simp +decide [List.lookup]
+  have l6 : ([("terminating_functions", Yaml.list l)] : List (String × Yaml)).lookup "visibility_function" = none := by simp +decide [List.lookup]
+  have l7 : ([("terminating_functions", Yaml.list l)] : List (String × Yaml)).lookup "area" = none := by simp +decide [List.lookup]
+  have l8 : ([("terminating_functions", Yaml.list l)] : List (String × Yaml)).lookup "object_type" = none := by simp +decide [List.lookup]
+  have l9 : ([("terminating_functions", Yaml.list l)] : List (String × Yaml)).lookup "colors" = none := by simp +decide [List.lookup]
+  simp only [l1, l2, l3, l4, l5, l6, l7, l8, l9] at h
+  cases hm : List.mapM (buildComp r fuel RegKind.terminating) l with
+  | error e => rw [hm] at h; cases h
+  | ok s2 =>
+    rw [hm] at h
+    refine ⟨s2, rfl, ?_⟩
+    have hc : isCustom "reduce_any" = false := by decide
+    have hfc : factoryCheck (r.of RegKind.terminating) "reduce_any" ["terminating_functions"] =
+        .ok (⟨"reduce_any", ["terminating_functions"], []⟩, ["terminating_functions"]) := by
+      simp +decide [factoryCheck, Regs.of, hsig]
+    simp only [Bool.not_true, Bool.false_eq_true, if_false, hc, List.map, hfc] at h
+    simp +decide at h
+    subst h
+    simp
+
+example : Gen.regs.transition.find? (fun s => s.name == "chain") = some ⟨"chain", ["transition_functions"], []⟩ ∧
+    Gen.regs.terminating.find? (fun s => s.name == "reduce_any") = some ⟨"reduce_any", ["terminating_functions"], []⟩ := by decide
+
 /-- the regenerated reward registry has that entry -/
 example : Gen.regs.reward.find? (fun s => s.name == "reduce_sum") = some ⟨"reduce_sum", ["reward_functions"], []⟩ := by decide
 
